@@ -272,6 +272,8 @@ def rule_n5(F):
         idx_params = [i for i in range(2, argc + 1) if ls[i]["ty"] == "usize"]
         if not ls[0]["ty"].startswith("std::option::Option<") or not idx_params:
             continue
+        if argc < 1 or "value::string::String" not in str(ls[1]["ty"]):
+            continue     # an associated helper without the view as receiver (it sees no string: its callers are the instances)
         nfn += 1
         defs = mir.Defs(b)
         dom = mir.dominators(b)
